@@ -356,7 +356,15 @@ func run(c Case) (fs []failure, inconc string, facts map[string]bool, hist any) 
 			if c.OutKind == "prev" && c.SrcKind == "failover" {
 				sub = "prev-id-beyond-switch-offset"
 			}
-			fs = append(fs, failure{"continued-from-foreign-position:" + sub + ":cache-" + c.CacheKind, fmt.Sprintf("the stored position (%s,%d) is not a point of the source's current history (source %s, fork %d) but replay continues with a log reader at %d", storedID, storedOff, c.SrcKind, c.Fork, first.Left)})
+			sig := "continued-from-foreign-position:" + sub + ":cache-" + c.CacheKind
+			if sub == "prev-id-beyond-switch-offset" {
+				// one root cause whatever the cache holds: the position is re-labelled / validated by replication id alone, the switch
+				// offset (second_repl_offset) is never consulted. With a cache of the current id the very first PSYNC already uses the
+				// current id; with any other cache the first attempt ends in a FULLRESYNC, and if that attempt is cut short before the
+				// snapshot is handed over, the re-labelled position is continued by the next one
+				sig = "continued-from-foreign-position:" + sub
+			}
+			fs = append(fs, failure{sig, fmt.Sprintf("the stored position (%s,%d) is not a point of the source's current history (source %s, fork %d) but replay continues with a log reader at %d", storedID, storedOff, c.SrcKind, c.Fork, first.Left)})
 		case first.Left != storedOff:
 			sig := "continued-from-later-position"
 			if first.Left < storedOff {
